@@ -211,15 +211,18 @@ def sweep_ordered(ctx, c):
                 want = rec.add(c, P, Q)
                 if _y0(P, Q, want, want and rec.dbl(c, want)):
                     continue          # y = 0 class: covered (and recorded as a known finding) by the main sweep
-                for rp, rq, decl in (("J1", "J1", oP), ("Jz2", "L", oP), ("L", "J1", oP), ("J1", "Jz2", N)):
-                    if h == 1 and decl != N and N != oP:
+                oQ = rec.order(c, Q)
+                for rp, rq, decl, declq in (("J1", "J1", oP, None), ("Jz2", "L", oP, None), ("L", "J1", oP, None),
+                                            ("J1", "Jz2", N, None), ("J1", "J1", oP, oQ), ("Jz2", "J1", N, oQ),
+                                            ("J1", "L", oP, oQ)):
+                    if h == 1 and ((decl != N and N != oP) or (declq not in (None, N) and N != oQ)):
                         continue      # cofactor declared 1 although the group is larger: not a consistent curve object
                     case = {"kind": "ordered", "c": list(c), "P": list(P), "Q": list(Q), "rp": rp, "rq": rq,
-                            "order": decl, "h": h}
+                            "order": decl, "order_q": declq, "h": h}
                     ctx.ev()
                     try:
                         A = EU.build(cf, c, P, rp, order=decl)
-                        B = EU.build(cf, c, Q, rq)
+                        B = EU.build(cf, c, Q, rq, order=declq)
                         if A is None or B is None:
                             continue
                         R = A + B
@@ -425,7 +428,7 @@ def replay_ordered(ctx, case):
     want = rec.add(c, P, Q)
     ctx.ev()
     try:
-        R = EU.build(cf, c, P, case["rp"], order=case["order"]) + EU.build(cf, c, Q, case["rq"])
+        R = EU.build(cf, c, P, case["rp"], order=case["order"]) + EU.build(cf, c, Q, case["rq"], order=case.get("order_q"))
         why = EU.result_matches(R, want, p)
         if why is None and want is not None and hasattr(R, "to_affine"):
             aff = R.to_affine()
